@@ -95,6 +95,9 @@ def plan_e_histories(case: dict, ref: dict) -> list[list[dict]]:
     if other.get("cwd") == "out":
         other["cwd"] = "proj"
     hs.append([{"sigma": sigma}, {"sigma": other}])
+    # the directory was populated by a run with the OTHER naming flag (same paths, other contents): everything is overwritten
+    flipped = dict(case["options"], nc=not case["options"].get("nc"))
+    hs.append([{"sigma": sigma, "options": flipped}, {"sigma": sigma}])
     if not strata:
         return hs
     e = engine.pick_fault_event(r, strata)
